@@ -21,6 +21,9 @@ def rd(arr, i):
         if z3.is_int_value(j) and z3.is_int_value(i) and j.as_long() != i.as_long():
             arr = arr.arg(0)
             continue
+        if (j.get_id(), i.get_id()) in NEQ:
+            arr = arr.arg(0)          # the path condition states j != i
+            continue
         if len(pend) >= 8:
             res = arr[i]
             break
@@ -41,6 +44,7 @@ def rd(arr, i):
 
 
 RD_HINTS = {}
+NEQ = set()
 
 
 def _ix(i, off):
@@ -396,28 +400,45 @@ class ExprMixin:
 
     def ev_BoolOp(self, node, st, spec):
         vals = []
-        saved = len(st.pc)
+        temps = []
         try:
             for e in node.values:
                 v = self.ev(e, st, spec)
                 b = self.truthy(v, st)
                 vals.append(b)
-                st.pc.append(b if isinstance(node.op, ast.And) else z3.Not(b))
+                t = b if isinstance(node.op, ast.And) else z3.Not(b)
+                st.pc.append(t)          # later operands are evaluated under the short-circuit assumption
+                temps.append(t)
         finally:
-            extra = st.pc[saved + len(vals):]   # facts added by evaluation (len>=0 etc.) are kept
-            del st.pc[saved:]
+            # remove only the temporary short-circuit assumptions; facts added by the evaluation itself (len >= 0,
+            # library axioms) stay
+            for t in temps:
+                for k in range(len(st.pc) - 1, -1, -1):
+                    if st.pc[k] is t:
+                        del st.pc[k]
+                        break
         return mk_bool(z3.And(*vals) if isinstance(node.op, ast.And) else z3.Or(*vals))
 
     def ev_IfExp(self, node, st, spec):
         c = self.truthy(self.ev(node.test, st, spec), st)
-        n = len(st.pc)
         st.pc.append(c)
-        a = self.ev(node.body, st, spec)
-        del st.pc[n:]
-        st.pc.append(z3.Not(c))
-        b = self.ev(node.orelse, st, spec)
-        del st.pc[n:]
+        try:
+            a = self.ev(node.body, st, spec)
+        finally:
+            self._drop(st, c)
+        nc = z3.Not(c)
+        st.pc.append(nc)
+        try:
+            b = self.ev(node.orelse, st, spec)
+        finally:
+            self._drop(st, nc)
         return self.ite(c, a, b, st)
+
+    def _drop(self, st, t):
+        for k in range(len(st.pc) - 1, -1, -1):
+            if st.pc[k] is t:
+                del st.pc[k]
+                return
 
     def ite(self, c, a, b, st):
         if a.ty.kind == "none" and b.ty.kind == "none":
@@ -668,12 +689,19 @@ class ExprMixin:
             if e1.kind in ("ref", "list") or e2.kind in ("ref", "list"):
                 if spec:
                     i = self.ctx.fresh("i", z3.IntSort())
-                    return z3.And(l1 == l2, z3.ForAll([i], z3.Implies(z3.And(0 <= i, i < l1), arr1[_ix(i, off1)] == arr2[_ix(i, off2)])))
+                    return z3.And(l1 == l2, z3.ForAll([i], z3.Implies(z3.And(0 <= i, i < l1), arr1[_ix(i, off1)] == arr2[_ix(i, off2)]), qid="seqeq_%s" % i))
                 raise Unsupported("== on lists of objects")
             i = self.ctx.fresh("i", z3.IntSort())
             x = SV(e1, arr1[_ix(i, off1)])
             y = SV(e2, arr2[_ix(i, off2)])
-            return z3.And(l1 == l2, z3.ForAll([i], z3.Implies(z3.And(0 <= i, i < l1), self.equal(x, y, st, spec))))
+            st.qdepth += 1
+            st.qids.add(i.get_id())
+            try:
+                inner = self.equal(x, y, st, spec)
+            finally:
+                st.qdepth -= 1
+                st.qids.discard(i.get_id())
+            return z3.And(l1 == l2, z3.ForAll([i], z3.Implies(z3.And(0 <= i, i < l1), inner), qid="seqeq_%s" % i))
         if ka == "ref" and kb == "ref":
             if spec:
                 return a.t == b.t
@@ -714,10 +742,12 @@ class ExprMixin:
             e, arr, off, ln = self.seq_of(container, st, spec)
             i = self.ctx.fresh("i", z3.IntSort())
             st.qdepth += 1
+            st.qids.add(i.get_id())
             try:
                 return self._contains_seq(e, arr, off, ln, i, item, st, spec)
             finally:
                 st.qdepth -= 1
+                st.qids.discard(i.get_id())
         raise Unsupported("membership in %r" % (container.ty,))
 
     def _contains_seq(self, e, arr, off, ln, i, item, st, spec):
